@@ -465,6 +465,12 @@ func (e *Engine) dispatch(st *State, fn *types.Func, args []Value, call *ast.Cal
 		}
 	}
 	if e.fc != nil {
+		for _, x := range e.fc.opaque {
+			if full == x || strings.HasSuffix(full, "/"+x) || strings.HasSuffix(full, "."+x) || strings.HasSuffix(full, ")."+x) {
+				e.noteAssumption("call treated as unknown code (opaque clause): " + full)
+				return e.havocCall(st, full, sig, call, true)
+			}
+		}
 		for _, x := range e.fc.dbonly {
 			if full == x || strings.HasSuffix(full, "/"+x) || strings.HasSuffix(full, "."+x) || strings.HasSuffix(full, ")."+x) {
 				return e.mapsOnlyCall(st, full, sig, call)
